@@ -335,16 +335,45 @@ def run(repo, rep, tier):
     g = cfgmod.build(f.node)
     sn = f.params[0]
     dom = g.dominators()
+    # locals whose value depends on self.transform (by data flow or by the tests that select their assignment)
+    def reads_transform(e, dep):
+        return any((isinstance(a, ast.Attribute) and a.attr == "transform" and isinstance(a.value, ast.Name) and a.value.id == sn)
+                   or (isinstance(a, ast.Name) and a.id in dep) for a in ast.walk(e))
+    dep = set()
+    changed = True
+    while changed:
+        changed = False
+        for n in ast.walk(f.node):
+            if isinstance(n, ast.If) and reads_transform(n.test, dep):
+                for sub in ast.walk(n):
+                    if isinstance(sub, ast.Assign):
+                        for t in sub.targets:
+                            if isinstance(t, ast.Name) and t.id not in dep:
+                                dep.add(t.id)
+                                changed = True
+            if isinstance(n, ast.Assign) and reads_transform(n.value, dep):
+                for t in n.targets:
+                    if isinstance(t, ast.Name) and t.id not in dep:
+                        dep.add(t.id)
+                        changed = True
     guard = None
     for n in g.nodes:
-        if n.kind == "test" and any(isinstance(a, ast.Attribute) and a.attr == "transform" and isinstance(a.value, ast.Name)
-                                    and a.value.id == sn for a in ast.walk(n.ast)):
-            if edge_always_raises(g, n, "T")[0]:
-                guard = n
+        if n.kind == "test" and reads_transform(n.ast, dep):
+            if edge_always_raises(g, n, "T")[0] or edge_always_raises(g, n, "F")[0]:
+                if guard is None or n.id in dom.get(guard.id, set()) is False:
+                    guard = n if guard is None else guard
+    # the guard that matters is the LAST transform-dependent raising test on the way in (earlier ones only compute its value)
+    cands = [n for n in g.nodes if n.kind == "test" and reads_transform(n.ast, dep)
+             and (edge_always_raises(g, n, "T")[0] or edge_always_raises(g, n, "F")[0])]
+    if cands:
+        guard = cands[-1]
     ok = guard is not None
     if ok:
         for n in g.nodes:
             if n.id in dom and n.kind == "stmt" and not isinstance(n.ast, ast.Raise) and guard.id not in dom[n.id]:
+                # statements that only prepare the guard's own value (assignments to transform-dependent locals) may precede it
+                if isinstance(n.ast, ast.Assign) and all(isinstance(t, ast.Name) and t.id in dep for t in n.ast.targets):
+                    continue
                 ok = False
     r5.ob(ok, "Count.__mul__: transform guard dominates the computation")
     if not ok:
